@@ -27,15 +27,20 @@ type Obligation struct {
 	inputs []namedTerm
 	axioms []*Term
 	// result
-	Status  string // unsat, sat, unknown, timeout, error
-	Solver  string
-	Seconds float64
-	Model   map[string]string
-	Output  string
-	Cover   bool // cover query: expected sat
+	Status   string // unsat, sat, unknown, timeout, error
+	Solver   string
+	Seconds  float64
+	Model    map[string]string
+	Output   string
+	Cover    bool // cover query: expected sat
 	smt      string
 	done     bool
 	GoalText string
+	smtKeep  string
+	logic    string
+	members  []*Obligation
+	batch    *Obligation
+	inBatch  *Obligation
 }
 
 type namedTerm struct {
@@ -67,13 +72,13 @@ type ctlFrame struct {
 }
 
 type fnFrame struct {
-	returns []*State
-	results []*types.Var
-	fn      *ast.FuncDecl
-	sig     *types.Signature
-	ctl     []*ctlFrame
-	defers  []*deferred
-	qual    string
+	returns  []*State
+	results  []*types.Var
+	fn       *ast.FuncDecl
+	sig      *types.Signature
+	ctl      []*ctlFrame
+	defers   []*deferred
+	qual     string
 	resNames []string
 }
 
@@ -82,41 +87,43 @@ type closure struct {
 }
 
 type Exec struct {
-	eng       *Engine
-	b         *TermBank
-	mode      string
-	qual      string
-	fn        *ast.FuncDecl
-	contract  *Contract
-	obls      []*Obligation
-	leafCache map[string][]leaf
-	caseLabel string
-	oldStack  []*State
-	frames    []*fnFrame
-	inlineDepth int
-	abstracted  map[string]int
-	axioms    []*Term
-	inputs    []namedTerm
-	strLits   map[string]*Term
-	spec      int // >0 while evaluating a contract expression
-	nameCount map[string]int
-	noSafety  int
-	pathCount int
-	failed    error
+	eng           *Engine
+	b             *TermBank
+	mode          string
+	qual          string
+	fn            *ast.FuncDecl
+	contract      *Contract
+	obls          []*Obligation
+	leafCache     map[string][]leaf
+	leafByType    map[types.Type][]leaf
+	caseLabel     string
+	oldStack      []*State
+	frames        []*fnFrame
+	inlineDepth   int
+	abstracted    map[string]int
+	axioms        []*Term
+	inputs        []namedTerm
+	strLits       map[string]*Term
+	spec          int // >0 while evaluating a contract expression
+	nameCount     map[string]int
+	noSafety      int
+	pathCount     int
+	failed        error
 	usedContracts map[string]bool
 	usedTrusted   map[string]bool
 	checkProps    []string
-	specPos   token.Pos
-	ghostDepth int
-	quantDepth int
-	addrTaken  map[types.Object]*Term
-	guardMarks []int
-	useStrCat  bool
-	useStrOf   bool
-	extraHavoc []types.Object
-	noGuard    int
-	pendingHavoc []string
-	guardHook  func(st *State, structT types.Type, field string, ptr *Term, at ast.Node, write bool)
+	specPos       token.Pos
+	ghostDepth    int
+	quantDepth    int
+	addrTaken     map[types.Object]*Term
+	guardMarks    []int
+	useStrCat     bool
+	useStrOf      bool
+	extraHavoc    []types.Object
+	noGuard       int
+	skolem        bool
+	pendingHavoc  []string
+	guardHook     func(st *State, structT types.Type, field string, ptr *Term, at ast.Node, write bool)
 }
 
 func (x *Exec) frame() *fnFrame { return x.frames[len(x.frames)-1] }
@@ -1207,13 +1214,13 @@ func (x *Exec) havocLoopTargets(st *State, body ast.Node, extra ...ast.Node) {
 func (x *Exec) assumeIntRange(st *State, v *Value) {}
 
 type loopParts struct {
-	cond  func(st *State) *Term // nil = true
-	body  func(st *State) *State
-	post  func(st *State) *State
-	node  ast.Stmt
-	label string
-	bodyN ast.Node
-	postN ast.Node
+	cond      func(st *State) *Term // nil = true
+	body      func(st *State) *State
+	post      func(st *State) *State
+	node      ast.Stmt
+	label     string
+	bodyN     ast.Node
+	postN     ast.Node
 	extraObjs []types.Object
 	autoInv   func(st *State) *Term
 }
@@ -1299,7 +1306,9 @@ func (x *Exec) runLoopHavoc(st *State, lp *loopParts, spec *LoopSpec, ord int) *
 	// 1. invariant on entry
 	if spec != nil {
 		for _, inv := range spec.Invariants {
+			x.skolem = true
 			g := evalInv(st, inv)
+			x.skolem = false
 			x.oblige(st, "inv-entry", inv.Name+".entry", g, lp.node.Pos(), inv.Props)
 		}
 	} else {
@@ -1350,7 +1359,9 @@ func (x *Exec) runLoopHavoc(st *State, lp *loopParts, spec *LoopSpec, ord int) *
 	}
 	if next != nil && spec != nil {
 		for _, inv := range spec.Invariants {
+			x.skolem = true
 			g := evalInv(next, inv)
+			x.skolem = false
 			x.oblige(next, "inv-preserve", inv.Name+".preserve", g, lp.node.Pos(), inv.Props)
 		}
 		if variant0 != nil {
